@@ -241,12 +241,19 @@ def reconnect_cases(draw):
     P = draw(st.sampled_from([20, 50, 100]))
     return {'after_timeout': True, 'P': P, 'L': P * draw(st.sampled_from([3, 4, 6])),
             'connect': draw(st.sampled_from([None, ['ticks', 1], ['ticks', 3], ['time', 0.005], ['time', 0.02]])),
-            'second_silent': draw(st.booleans()), 'msg': draw(st.booleans())}
+            'second_silent': draw(st.booleans()), 'msg': draw(st.booleans()),
+            # what ended the first connection: the keepalive timeout itself (the handler reconnects from on_keepalive_timeout),
+            # or the link (EOF / error; the handler reconnects from on_close, the next transport is there at once)
+            'cause': draw(st.sampled_from(['timeout', 'timeout', 'eof', 'error']))}
 
 
 def judge_after_timeout(case):
     P, L = case['P'], case['L']
-    ops = [['tick', 3], ['mark', 'start'], ['adv', 2.3 * L], ['tick', 4], ['settle'], ['mark', 'second']]
+    cause = case.get('cause', 'timeout')
+    if cause == 'timeout':
+        ops = [['tick', 3], ['mark', 'start'], ['adv', 2.3 * L], ['tick', 4], ['settle'], ['mark', 'second']]
+    else:
+        ops = [['tick', 3], ['mark', 'start'], ['adv', 1.5 * P], ['cut', cause], ['tick', 6], ['settle'], ['mark', 'second']]
     t = 0.0
     while t < 3.2 * L:
         ops.append(['adv', 0.4 * L])
@@ -257,13 +264,20 @@ def judge_after_timeout(case):
     prog = {'cfg': {'msg': case['msg'], 'frag': [None, None], 'rbuf': [1024, 1024], 'raw': 's', 'ka': P / 1000.0, 'life': L / 1000.0,
                     'transports': 2, 'on_ka_timeout': 'reconnect', 'connect': [None, case['connect']]},
             'inter': [], 'ops': ops, 'heal': False}
+    if cause != 'timeout':
+        del prog['cfg']['on_ka_timeout']
+        prog['cfg']['on_close_reconnect'] = True
     tr = run_program(prog)
     out = []
     log = tr.world.log
     marks = {e['name']: e for e in log if e['ev'] == 'mark'}
     timeouts = [e for e in log if e['ev'] == 'on_keepalive_timeout']
-    facts = dict(P_ms=P, L_ms=L, connect=case['connect'], second_silent=case['second_silent'])
-    if not timeouts or timeouts[0]['seq'] > marks['second']['seq']:
+    facts = dict(P_ms=P, L_ms=L, connect=case['connect'], second_silent=case['second_silent'], first_connection_ended_by=cause)
+    if cause != 'timeout':
+        early = [e for e in timeouts if e['seq'] < marks['second']['seq']]
+        if early:
+            out.append(viol('false_keepalive_timeout', 'C15:false_timeout:first_connection', **facts))
+    elif not timeouts or timeouts[0]['seq'] > marks['second']['seq']:
         out.append(viol('keepalive_timeout_not_detected', 'C15:timeout_missed:first_connection', **facts))
         return out, True, ['part=after_timeout']
     second = [e for e in tr.world.wire.get('c', []) if e.get('cx') == 1]
@@ -283,7 +297,7 @@ def judge_after_timeout(case):
         out.append(viol('false_keepalive_timeout', 'C15:false_timeout:second_connection', **facts))
     for err in tr.loop_errors:
         out.append(viol('unhandled_exception', 'C15:loop_error:%s' % err.get('type'), **err))
-    return out, True, ['part=after_timeout', 'connect_suspends=%s' % bool(case['connect'])]
+    return out, True, ['part=after_timeout', 'connect_suspends=%s' % bool(case['connect']), 'first_connection_ended_by=' + cause]
 
 
 info = {}
